@@ -44,8 +44,8 @@ func c09Families(tier string) []c09Family {
 			fs = append(fs, c09Family{"2seg/" + lower, u5, 2, lower, b8, s5, 3, 0})
 			fs = append(fs, c09Family{"3seg/" + lower, u3, 3, lower, b8, s5, 3, 0})
 		}
-		for q := 6; q <= 30; q += 2 {
-			fs = append(fs, c09Family{fmt.Sprintf("1seg/store-indexed(q=%d)", q), u3, 1, "store-indexed", []string{nilMark, "", "a", "abc", "abd", "b", "bz", "c", "cd"}, []string{"", "ab", "abd", "b", "bcdefghij", "c", "cc", "d"}, 3, q})
+		for q := 7; q <= 63; q += 7 {
+			fs = append(fs, c09Family{fmt.Sprintf("1seg/store-indexed(q=%d)", q), u3, 1, "store-indexed", []string{nilMark, "", "a", "abc", "abd", "b", "bz", "c", "cd"}, []string{"", "ab", "abd", "b", "c", "cc", "d", "e"}, 3, q})
 		}
 		return fs
 	}
@@ -58,8 +58,8 @@ func c09Families(tier string) []c09Family {
 	fs = append(fs, c09Family{"2seg/store-part", u3, 2, "store-part", b8, s5, 3, 0})
 	fs = append(fs, c09Family{"3seg/none", u3, 3, "none", b8, s5, 2, 0})
 	fs = append(fs, c09Family{"2seg/store-full", u3, 2, "store-full", b8, s5, 2, 0})
-	for _, q := range []int{10, 14, 20} {
-		fs = append(fs, c09Family{fmt.Sprintf("1seg/store-indexed(q=%d)", q), u3, 1, "store-indexed", []string{nilMark, "", "a", "abc", "abd", "b", "bz", "c", "cd"}, []string{"", "ab", "abd", "b", "bcdefghij", "c", "cc", "d"}, 2, q})
+	for _, q := range []int{21, 28, 35, 42} {
+		fs = append(fs, c09Family{fmt.Sprintf("1seg/store-indexed(q=%d)", q), u3, 1, "store-indexed", []string{nilMark, "", "a", "abc", "abd", "b", "bz", "c", "cd"}, []string{"", "ab", "abd", "b", "c", "cc", "d", "e"}, 2, q})
 	}
 	return fs
 }
@@ -109,7 +109,7 @@ func lowerContent(f *c09Family) map[string]string {
 		m["abd"] = "Labd" // a key that is never in the upper segments
 	case strings.HasSuffix(f.Lower, "-indexed"):
 		// uneven key lengths: with a small index quota the key index of the persisted segment is truncated
-		for _, k := range []string{"", "a", "ab", "abc", "abd", "b", "bcdefghij", "c", "cc"} {
+		for _, k := range []string{"", "a", "ab", "abc", "abcdefghijklmnop", "b", "c", "cc", "d"} {
 			m[k] = "L" + k
 		}
 	case strings.HasSuffix(f.Lower, "-part"):
